@@ -261,4 +261,21 @@ def holdsM2 (o : RmObs) : Bool := o.disposed == o.registered && o.pending == 0 &
 
 def holdsK (panics : Nat) : Bool := panics == 0
 
+/-! ### Shutdown with a deadline: whether the deadline or the disposal wins, once the slow
+resource is unblocked the resource has been disposed exactly once and the helper goroutine is gone. -/
+
+structure HObs where
+  timedOut : Bool
+  disposed : Nat
+  live : Nat              -- goroutines of DisposeWithTimeout still alive
+  deriving DecidableEq, Repr
+
+def hObs (c : Cfg HShared HPc) : HObs :=
+  { timedOut := c.sh.timedOut, disposed := c.sh.disposed,
+    live := match c.ths[3]? with
+      | some l => if l == HPc.done then 0 else 1
+      | none => 0 }
+
+def holdsH (o : HObs) : Bool := o.disposed == 1 && o.live == 0
+
 end Tunnox.C16
